@@ -74,5 +74,27 @@ func VerifPoolReleaseProcessors(p router.UnderlayProvider) {
 	}
 }
 
+// VerifPoolEnqueueProc does what the link's receive does with a packet for processor i: a
+// non-blocking send on the processor queue. It reports whether the queue took the packet.
+func VerifPoolEnqueueProc(p router.UnderlayProvider, i int, pkt *router.Packet) bool {
+	u := p.(*provider)
+	u.mu.Lock()
+	defer u.mu.Unlock()
+	for _, l := range u.allLinks {
+		if il, ok := l.(*internalLink); ok {
+			if i < 0 || i >= len(il.procQs) {
+				return false
+			}
+			select {
+			case il.procQs[i] <- pkt:
+				return true
+			default:
+				return false
+			}
+		}
+	}
+	return false
+}
+
 // VerifPoolBatchSize returns the provider's batch size.
 func VerifPoolBatchSize(p router.UnderlayProvider) int { return p.(*provider).batchSize }
